@@ -6,6 +6,10 @@ SKEL = ["queue/delay_queue.go"]
 CORRS = [
     dict(harness="delayq", area="delayq", name="delayq-sync", env={"GODEBUG": "asynctimerchan=0"}),
     dict(harness="delayq", area="delayq", name="delayq-async", env={"GODEBUG": "asynctimerchan=1"}),
+    # the DelayQueue model abstracts its heap to "an element of minimal deadline": that assumption is what the C05 heap
+    # theorems (c05_pq_dequeue_min, c05_pq_step_refines …) prove about the heap MODEL, so the heap model must be an
+    # acceptor for the real internal/queue.PriorityQueue on this run too (growth beyond 64 slots, shrinking, ties)
+    dict(harness="heap", area="heap", name="heap-under-delayq"),
 ]
 
 
@@ -31,7 +35,7 @@ MANIFEST = dict(
           "of delay_queue.go regenerated on each run, and by timed concurrent histories of the real queue under "
           "GODEBUG=asynctimerchan=0 and =1 which the model must explain (linearization search over runs of the model's step "
           "function inside the calls' time brackets) and the property's own monitors must accept."),
-    note=COMMON_NOTE + (" The internal heap is abstracted: Peek/Dequeue return an element of minimal deadline (heap correctness is C05; "
+    note=COMMON_NOTE + (" The internal heap is abstracted: Peek/Dequeue return an element of minimal deadline (heap correctness is C05: its heap model is re-validated against the real PriorityQueue by this check as well; "
                         "the comparator evaluates Delay() at two instants, the model compares deadlines exactly, i.e. 'up to "
                         "clock-resolution ties' as the property says; the dynamic oracle uses a 2 ms tolerance). Mutex, channel "
                         "close/receive, select, time.Timer (both asynctimerchan modes), context and the monotonic clock are "
